@@ -13,8 +13,10 @@ Definition suffix (s : st) : str := if epub s then R ".xhtml" else R ".html".
 Definition dec2 (n : nat) : str := if Nat.ltb n 10 then R "0" ++ dec n else dec n.
 Definition custom_file_names (s : st) : bool := truthy (assoc (R "xhtml-chap-custom-filenames") (params s)).
 Definition has_slash (x : str) : bool := existsb (N.eqb 47) x.
+(* utils.go idIsSafe: an id that can be written as it is in attribute values and file names *)
+Definition id_safe (x : str) : bool := negb (contains_any [38; 60; 62; 34; 39] x).
 Definition chapname (s : st) : str :=
-  let idt := if custom_file_names s && negb (has_slash (cid s)) then cid s else [] in
+  let idt := if custom_file_names s && negb (has_slash (cid s)) && id_safe (cid s) then cid s else [] in
   match idt with [] => dec (pcount (toc s)) ++ R "-" ++ dec2 (ccount (toc s)) | _ => idt end.
 Definition fprefix (s : st) : str := match assoc (R "xhtml-chap-prefix") (params s) with Some p => p | None => R "body" end.
 Definition gen_ref_s (s : st) (prefix id : str) (hasfile : bool) : str :=
@@ -24,7 +26,7 @@ Definition gen_ref_s (s : st) (prefix id : str) (hasfile : bool) : str :=
   else if Nat.ltb 0 (pcount (toc s)) || Nat.ltb 0 (ccount (toc s)) then file ++ R "#" ++ prefix ++ id
   else R "index" ++ suffix s ++ R "#" ++ prefix ++ id.
 Definition header_reference (s : st) : str :=
-  let idt := if custom_ids s then cidx s else [] in
+  let idt := if custom_ids s && id_safe (cidx s) then cidx s else [] in
   let m := macro s in
   let chap := str_eqb (firstn 2 m) (R "Pt") || str_eqb (firstn 2 m) (R "Ch") in
   if chap then (match idt with [] => gen_ref_s s (R "s") (dec (hcount (toc s))) true | _ => gen_ref_s s [] idt true end)
@@ -41,7 +43,7 @@ Fixpoint before_last (c : rune) (l : str) : option str :=
               end
   end.
 Definition get_id (s : st) (e : lox) : str :=
-  if negb (multi s) then (if custom_ids s && negb (str_eqb (lx_id e) []) then lx_id e else R "s" ++ dec (lx_count e))
+  if negb (multi s) then (if custom_ids s && negb (str_eqb (lx_id e) []) && id_safe (lx_id e) then lx_id e else R "s" ++ dec (lx_count e))
   else
     let a := match after_first 35 (lx_ref e) with Some t => t | None => lx_ref e end in
     match before_last 46 a with Some t => t | None => a end.
@@ -50,7 +52,7 @@ Definition get_id (s : st) (e : lox) : str :=
 Definition epub3 (s : st) : bool := match assoc (R "epub-version") (params s) with Some (50 :: _) => false | _ => true end.
 Definition common_header (s : st) : str :=
   let v5 := match assoc (R "xhtml-version") (params s) with Some (52 :: _) => false | _ => true end in
-  let lg := lang s in
+  let lg := html_escape (lang s) in
   let e3 := epub s && epub3 s in
   let modern := e3 || (negb (epub s) && v5) in
   (if e3 then R "<?xml version=""1.0"" encoding=""utf-8""?>" ++ NLs else []) ++
@@ -64,9 +66,9 @@ Definition common_header (s : st) : str :=
 Definition doc_header (title : str) (s : st) : str :=
   common_header s ++
   (match title with [] => [] | _ => R "    <title>" ++ title ++ R "</title>" ++ NLs end) ++
-  (if epub s then [] else match assoc (R "xhtml-favicon") (params s) with Some f => R "    <link rel=""shortcut icon"" type=""image/x-icon"" href=""" ++ f ++ R """ />" ++ NLs | None => [] end) ++
+  (if epub s then [] else match assoc (R "xhtml-favicon") (params s) with Some f => R "    <link rel=""shortcut icon"" type=""image/x-icon"" href=""" ++ html_escape f ++ R """ />" ++ NLs | None => [] end) ++
   (if epub s then (if has_key (R "epub-css") (params s) then R "    <link rel=""stylesheet"" href=""stylesheet.css"" />" ++ NLs else [])
-   else match assoc (R "xhtml-css") (params s) with Some c => R "    <link rel=""stylesheet"" href=""" ++ c ++ R """ />" ++ NLs | None => [] end) ++
+   else match assoc (R "xhtml-css") (params s) with Some c => R "    <link rel=""stylesheet"" href=""" ++ html_escape c ++ R """ />" ++ NLs | None => [] end) ++
   R "  </head>" ++ NLs ++ R "  <body>" ++ NLs.
 Definition doc_footer : str := R "  </body>" ++ NLs ++ R "</html>" ++ NLs.
 Definition param (n : string) (s : st) : str := match assoc (runes n) (params s) with Some v => v | None => [] end.
@@ -82,7 +84,7 @@ Definition title_page (s : st) : st :=
 (* ---- Renderer methods ---- *)
 Definition begin_desc_list (id : str) := w (R "<dl" ++ idattr id ++ R ">" ++ NLs).
 Definition begin_desc_value := w (R "<dd>").
-Definition begin_dialogue (s : st) := w (match assoc (R "dmark") (params s) with Some d => d | None => [8211] end) s.
+Definition begin_dialogue (s : st) := w (match assoc (R "dmark") (params s) with Some d => html_escape d | None => [8211] end) s.
 Definition begin_display_block (tag id : str) (s : st) : st :=
   let '(open, pairs) :=
     match assoc tag (dtags s) with
@@ -103,7 +105,7 @@ Definition go_up (s : st) : str :=
 Definition file_change (title : str) (s : st) : st :=
   let s1 := if epub s then s else match navtext s with [] => s | n => (wo n s) <| navtext := [] |> end in
   let s2 := wo doc_footer s1 in
-  let s2 := if custom_file_names s2 && has_slash (cid s2) then err "id contains a path separator and cannot be used as file name" s2 else s2 in
+  let s2 := if custom_file_names s2 && (has_slash (cid s2) || negb (id_safe (cid s2))) then err "id contains a path separator and cannot be used as file name" s2 else s2 in
   let name := (if epub s2 then R "EPUB/" else []) ++ fprefix s2 ++ R "-" ++ chapname s2 ++ suffix s2 in
   let s3 := s2 <| files ::= fun l => l ++ [(curfile s2, flat (wout s2))] |> <| wout := [] |> <| curfile := name |> in
   let s4 := wo (doc_header title s3) s3 in
@@ -315,7 +317,7 @@ Definition content_opf (title : str) (s : st) : str * st :=
     R "<metadata xmlns:dc=""http://purl.org/dc/elements/1.1/""" ++ NLs ++ R "  xmlns:dcterms=""http://purl.org/dc/terms/""" ++ NLs ++
     R "  xmlns:xsi=""http://www.w3.org/2001/XMLSchema-instance""" ++ NLs ++ R "  xmlns:opf=""http://www.idpf.org/2007/opf"">" ++ NLs ++
     R "<dc:identifier id=""epub-id-1"">" ++ param "epub-uuid" s ++ R "</dc:identifier>" ++ NLs ++
-    R "<dc:language>" ++ lang s ++ R "</dc:language>" ++ NLs ++
+    R "<dc:language>" ++ html_escape (lang s) ++ R "</dc:language>" ++ NLs ++
     R "<dc:title id=""epub-title-1"">" ++ title ++ R "</dc:title>" ++ NLs ++
     (if e3 then R "<meta property=""dcterms:modified"">0001-01-01T01:01:01Z</meta>" ++ NLs else []) ++
     (match subj with [] => [] | _ => R "<dc:subject id=""epub-subject-1"">" ++ subj ++ R "</dc:subject>" ++ NLs end) ++
@@ -330,7 +332,7 @@ Definition content_opf (title : str) (s : st) : str * st :=
       match media_type im with
       | None => (acc, err "unknown image format" s)
       | Some mt => let b := base_name im [] in
-                   (acc ++ R "<item id=""" ++ b ++ R """" ++ NLs ++ R "      href=""images/" ++ b ++ R """" ++ NLs ++ R "      media-type=""" ++ mt ++ R """ />" ++ NLs, s)
+                   (acc ++ R "<item id=""" ++ html_escape b ++ R """" ++ NLs ++ R "      href=""images/" ++ html_escape b ++ R """" ++ NLs ++ R "      media-type=""" ++ mt ++ R """ />" ++ NLs, s)
       end) (images s) ([], s) in
   (head ++ imgs ++ R "</manifest>" ++ NLs ++ R "<spine toc=""epub2_ncx"">" ++ NLs ++ R "<itemref idref=""index"" />" ++ NLs ++
    (if e3 then R "<itemref idref=""nav"" linear=""yes"" />" ++ NLs else []) ++
@@ -342,7 +344,7 @@ Definition container_xml : str :=
 Definition nav_xhtml (title : str) (s : st) : str * st :=
   let '(t, s1) := toc_string DNav (mkPo [] [] []) s in
   (R "<?xml version=""1.0"" encoding=""utf-8""?>" ++ NLs ++ R "<!DOCTYPE html>" ++ NLs ++
-   R "<html xmlns=""http://www.w3.org/1999/xhtml"" xml:lang=""" ++ lang s ++ R """" ++ NLs ++ R "      xmlns:epub=""http://www.idpf.org/2007/ops"">" ++ NLs ++
+   R "<html xmlns=""http://www.w3.org/1999/xhtml"" xml:lang=""" ++ html_escape (lang s) ++ R """" ++ NLs ++ R "      xmlns:epub=""http://www.idpf.org/2007/ops"">" ++ NLs ++
    R "<head>" ++ NLs ++ R "    <meta charset=""utf-8"" />" ++ NLs ++
    (match title with [] => [] | _ => R "    <title>" ++ title ++ R "</title>" ++ NLs end) ++
    R "    <link rel=""stylesheet"" type=""text/css"" href=""stylesheet.css"" />" ++ NLs ++ R "</head>" ++ NLs ++ R "<body>" ++ NLs ++ NLs ++
